@@ -25,6 +25,8 @@ GEN = [
     "~V\nVERS. 2.0:\nWRAP. NO:\n~W\nSTRT.M 1:\nSTOP.M 2:\nSTEP.M 1:\nNULL. 0:\nLONG. " + "v" * 90 + " : " + "d" * 70 + "\n~C\nDEPT.M:\nVERYLONGMNEMONICNAME.verylongunit 12 34 : x\n~P\nP.unit  : empty value with unit\nQ. : all empty\n~A\n1 5\n2 0\n",
     "~V\nVERS. 2.0:\nWRAP. NO:\n~W\nSTRT.S 0.000001:\nSTOP.S 0.000003:\nSTEP.S 0.000001:\nNULL. -999.25:\n~C\nTIME.S:\nAMP.:\n~A\n0.000001 1e-7\n0.000002 123456789.123456789\n0.000003 -0.1\n",
 ]
+GEN.append("~V\nVERS. 2.0:\nWRAP. NO:\n~W\nSTRT.M 1:\nSTOP.M 2:\nSTEP.M 1:\nNULL. -999.25:\n~C\nDEPT.M:\nGR.:\n~P\nA.100   5 : numeric unit, widest item\n~A\n1 1\n2 2\n")
+GEN.append("~V\nVERS. 2.0:\nWRAP. NO:\n~W\nSTRT.M 1:\nSTOP.M 2:\nSTEP.M 1:\nNULL. -999.25:\nRIG.1000 lbf 25.5 : numeric unit with suffix\n~C\nDEPT.M:\nGR.2   07 : numeric unit in ~C\n~A\n1 1\n2 2\n")
 OPTS = [{}, {"version": 1.2}, {"version": 2.0, "wrap": True}, {"fmt": "%.3f"}, {"fmt": "%.10g", "len_numeric_field": 25},
         {"version": 1.2, "wrap": True, "data_width": 40}, {"mnemonics_header": True}, {"wrap": False, "spacer": "\t"}]
 
